@@ -9,6 +9,7 @@ import ClaripyProofs.Lemmas.VSA.SextSound
 import ClaripyProofs.Lemmas.VSA.AndXor
 import ClaripyProofs.Lemmas.VSA.ConcatSound
 import ClaripyProofs.Lemmas.VSA.AshrSound
+import ClaripyProofs.Lemmas.VSA.MeetFinal
 /-!
 # C21 — strided-interval transfer functions are sound
 
@@ -237,6 +238,60 @@ theorem C21_ashr_sound (a amt r : SI) (ha : a.WF) (hab : a.bottom = false) (hna 
 example : (SI.new 4 3 6 1).WF ∧ (SI.new 4 3 6 1).renorm = SI.new 4 3 6 1 ∧ (SI.new 4 3 6 1).mem 12 ∧ (SI.new 4 1 1 2).mem 2 ∧
     Conc.ashr 4 12 2 = 15 ∧ (∃ r, (SI.new 4 3 6 1).rshiftArith (SI.new 4 1 1 2) = .ok r ∧ r.mem 15 ∧ r.mem 3) := by
   refine ⟨by decide, by decide, by decide, by decide, by decide, ⟨_, rfl, by decide, by decide⟩⟩
+
+/-! ## eq / ne — through the meet; sound on aligned operands, false without the guard (finding C21-eq-unaligned) -/
+
+/-- full statement: the verdict of `eq` admits the truth value of `x = y` for all members -/
+def C21_eq_full : Prop :=
+  ∀ (a b : SI) (br : BoolRes) (x y : Nat), a.WF → b.WF → a.bits = b.bits → a.mem x → b.mem y → a.eq b = .ok br →
+    br.has (decide (x = y)) = true
+
+/-- `2[2,3]` and `3[2,0]` both are `{2}` at 2 bits, `eq` answers False (the meet loses the common member) -/
+theorem eq_unaligned_unsound : ¬ C21_eq_full := by
+  intro h
+  have := h { bits := 2, stride := 2, lb := 2, ub := 3 } { bits := 2, stride := 3, lb := 2, ub := 0 } .f 2 2
+    (by decide) (by decide) (by decide) (by decide) (by decide) (by decide)
+  exact absurd this (by decide)
+
+/-- **`eq` is sound on aligned operands** (in the form the constructor returns): the verdict admits the truth value of
+`x = y` for all members `x`, `y`; `ne` is its complement -/
+theorem C21_eq_sound (a b : SI) (br : BoolRes) (x y : Nat) (ha : a.WF) (hb : b.WF) (hbits : a.bits = b.bits)
+    (hal : a.Aligned ∧ b.Aligned) (hna : a.renorm = a) (hnb : b.renorm = b) (hx : a.mem x) (hy : b.mem y)
+    (h : a.eq b = .ok br) : br.has (decide (x = y)) = true ∧ br.not.has (decide (x ≠ y)) = true := by
+  have key : br.has (decide (x = y)) = true := by
+    unfold SI.eq at h
+    by_cases hint : (a.isInteger && b.isInteger) = true
+    · rw [if_pos hint] at h
+      have hi : a.lb = a.ub ∧ b.lb = b.ub := by simpa [SI.isInteger] using hint
+      have ex := mem_integer a x ha hi.1 hx
+      have ey := mem_integer b y hb hi.2 hy
+      have := pure_ok' h
+      subst this
+      by_cases hl : a.lb = b.lb
+      · have : x = y := by omega
+        simp [hl, this, BoolRes.has, BoolRes.hasTrue]
+      · have : x ≠ y := by omega
+        simp [hl, this, BoolRes.has, BoolRes.hasFalse]
+    · rw [if_neg hint] at h
+      obtain ⟨m, hm, h⟩ := bind_ok' h
+      have := pure_ok' h
+      subst this
+      by_cases hbot : m.bottom = true
+      · rw [if_pos hbot]
+        have : x ≠ y := by
+          intro hxy
+          subst hxy
+          have := (meet_sound a.bits a b m ⟨ha, rfl⟩ ⟨hb, hbits.symm⟩ hx.1 hy.1 hal.1 hal.2 hna hnb hm).2 x hx hy
+          rw [this.1] at hbot; cases hbot
+        simp [this, BoolRes.has, BoolRes.hasFalse]
+      · rw [if_neg hbot]; exact has_of_m _
+  refine ⟨key, ?_⟩
+  have := brNot_has br _ key
+  simpa using this
+
+/-- non-vacuity: overlapping aligned operands (Maybe), disjoint residues (False) -/
+example : (SI.new 4 3 11 4).eq (SI.new 4 2 4 12) = .ok .m ∧ (SI.new 4 2 1 7).eq (SI.new 4 2 4 12) = .ok .f ∧
+    (SI.new 4 3 11 4).Aligned ∧ (SI.new 4 2 4 12).Aligned := by decide
 
 /-! ## sdiv — false on the code (floor instead of truncation), finding C21-sdiv-floor -/
 
